@@ -78,6 +78,32 @@ def campaign(c):
                     c.violation('eth:macs', 'tunnel outer packet: Ethernet header is not (mac(dst ip), mac(src ip), 0x0800)', dict(src=ps))
             c.count('tunnel-outer-grid')
             c.case(('tunnel-outer', tmpl, par), dict(kind='tunnel-outer', session=tmpl % par))
+    # raw mode is a property of the CALL for the builders that are plain functions: the same call framed, raw, raw, framed in one
+    # program (same end points, so that anything remembered between calls would show)
+    CALLS = ['ipv4::udp::unicast(A:1000, B:53RAW, "|c0ffee|")', 'ipv4::udp::broadcast(A:68, 255.255.255.255:67RAW, "|c0ffee|")', 'dns::host(A, "a.example", ns: BRAW, 10.0.0.1)',
+             'ipv4::udp::unicast(src: A:1000, dst: B:53RAW, "")', 'g.datagram(RAW0)', 'g.fragment(0, 1RAW)', 'g.tail(1RAW)']
+    for ci, call in enumerate(CALLS):
+        r = c.rng.fork('mixedraw%d' % ci)
+        a, b = netscen.addr(r), netscen.addr(r)
+        for pattern in ([0, 1, 1, 0], [1, 0, 0, 1], [1, 1, 0, 1]):
+            def spell(raw):
+                x = call.replace('RAW0', 'raw: true' if raw else '').replace('RAW', ', raw: true' if raw else '')
+                return x.replace('A', netscen.ip(a)).replace('B', netscen.ip(b))
+            prog = ('import ipv4;\nimport dns;\nlet g = ipv4::frag(%s, %s, "0123456789abcdef");\n' % (netscen.ip(a), netscen.ip(b)) + ''.join(spell(x) + ';\n' for x in pattern)).encode()
+            impl, model = progdiff.run_both(c, prog)
+            progdiff.compare(c, prog, impl, model, 'eth:mixed-raw', project=lambda f: f[:14] if f[:1] != b'\x45' else b'', times=False)
+            recs = [x[1] for x in progdiff.pcap_records(impl['file'] or b'')]
+            per = len(recs) // len(pattern) if recs else 0
+            if impl['outcome'][0] != 'success' or per == 0 or len(recs) != per * len(pattern):
+                c.violation('eth:raw-count', 'mixed raw / framed calls: %s, %d records' % (impl['outcome'][:2], len(recs)), dict(src=prog.decode())); continue
+            groups = [recs[k * per:(k + 1) * per] for k in range(len(pattern))]
+            rawref = [g for g, x in zip(groups, pattern) if x][0]
+            for g, x in zip(groups, pattern):
+                for fr, rr in zip(g, rawref):
+                    ok = (fr == rr) if x else (fr[14:] == rr and netscen.facts(c, fr, False) is not None and (netscen.facts(c, fr, False)['ethok'] == 'true' or netscen.facts(c, fr, False).get('ethbc') == 'true'))
+                    if not ok:
+                        c.violation('eth:raw-differs', 'the same call with and without `raw: true` in one program: a %s packet is not the raw packet %s the 14-byte Ethernet header' % ('raw' if x else 'framed', 'without' if x else 'with'), dict(src=prog.decode())); break
+        c.case(('mixed-raw-calls', ci), dict(kind='mixed-raw-calls', call=call))
     # eth::frame wire order, eth::from_ip
     for i in range(30 if c.quick else 500):
         r = c.rng.fork('frame%d' % i)
